@@ -105,12 +105,19 @@ struct World {
     tasks: HashMap<usize, Task>,
     sleep_flag: HashMap<usize, Arc<AtomicBool>>,
     subscribe: Option<Rc<dyn Fn(usize, usize, u64)>>,
+    /// talkback moves still to come in the script, per (subscription, sink): a sink that will not use
+    /// its talkback again drops it (at once if it never uses it) - no operator may depend on the sink
+    /// keeping the talkback alive
+    ups_left: HashMap<(usize, usize), usize>,
     /// subscription moves still to come in the script: after the last one the harness drops the
     /// source value under test (as a caller that subscribes a temporary does), so every subscription
     /// has to live on what its own closures own
     subs_left: usize,
     /// number of calls of user closures (map's f, filter's predicate, scan's reducer)
     evals: u64,
+    /// copies of user closures: next identity, and the subscriptions each copy ran under
+    next_inst: u64,
+    inst_subs: HashMap<u64, std::collections::HashSet<usize>>,
     /// flatten: one puppet (one `Arc`) per inner id modulo 100, and the id it was last emitted as
     inner_cache: HashMap<u64, Arc<Source<usize>>>,
     inner_emitting: Vec<u64>,
@@ -131,6 +138,32 @@ fn w<R>(f: impl FnOnce(&mut World) -> R) -> R {
 
 fn count_eval() {
     w(|w| w.evals += 1)
+}
+
+/// identity of one copy of a user closure: `Clone` yields a NEW identity (a closure that captures its
+/// own state by value gets a pristine copy per clone), and every call records under which subscription
+/// the copy ran.  The operators clone their closure once per subscription, so no copy may run under two.
+#[derive(Debug)]
+pub struct Inst(u64);
+impl Inst {
+    pub fn fresh() -> Inst {
+        Inst(w(|w| {
+            w.next_inst += 1;
+            w.next_inst
+        }))
+    }
+    pub fn touch(&self) {
+        let sub = cur_ctx();
+        let id = self.0;
+        w(|w| {
+            w.inst_subs.entry(id).or_default().insert(sub);
+        })
+    }
+}
+impl Clone for Inst {
+    fn clone(&self) -> Inst {
+        Inst::fresh()
+    }
 }
 
 fn cur_ctx() -> usize {
@@ -262,7 +295,15 @@ fn perform(sub: usize, inp: Inp, tok: String) {
             }
         }
         Inp::Up(s, m) => {
-            let tb = w(|w| w.sink_tb.get(&(sub, s)).cloned());
+            let tb = w(|w| {
+                let left = w.ups_left.entry((sub, s)).or_insert(0);
+                *left = left.saturating_sub(1);
+                if *left == 0 {
+                    w.sink_tb.remove(&(sub, s))
+                } else {
+                    w.sink_tb.get(&(sub, s)).cloned()
+                }
+            });
             if let Some(tb) = tb {
                 if matches!(m, UMsg::T | UMsg::E(_)) {
                     w(|w| w.sink_live = false);
@@ -344,7 +385,9 @@ fn mk_sink<O: Show + 'static>(sub: usize, s: usize) -> Arc<Sink<O>> {
                         UMsg::E(id) => tb(Message::Error(err_arc(id))),
                     });
                     w(|w| {
-                        w.sink_tb.insert((sub, s), wrapped);
+                        if w.tree_mode || w.ups_left.get(&(sub, s)).copied().unwrap_or(0) > 0 {
+                            w.sink_tb.insert((sub, s), wrapped);
+                        }
                         w.sink_live = true;
                         w.sink_credit += 1;
                     });
@@ -623,7 +666,9 @@ fn build(kv: &Kv) -> Rc<dyn Fn(usize, usize, u64)> {
         "map" => {
             let a = geti(kv, "a", 1) as usize;
             let b = geti(kv, "b", 0) as usize;
+            let inst = Inst::fresh();
             sub_to(Arc::new(map(move |x: usize| {
+                inst.touch();
                 count_eval();
                 a * x + b
             })(src0())))
@@ -631,7 +676,9 @@ fn build(kv: &Kv) -> Rc<dyn Fn(usize, usize, u64)> {
         "filter" => {
             let m = geti(kv, "m", 2) as usize;
             let r = geti(kv, "r", 0) as usize;
+            let inst = Inst::fresh();
             sub_to(Arc::new(filter(move |x: &usize| {
+                inst.touch();
                 count_eval();
                 *x % m == r
             })(src0())))
@@ -639,8 +686,10 @@ fn build(kv: &Kv) -> Rc<dyn Fn(usize, usize, u64)> {
         "scan" => {
             let k = geti(kv, "k", 0);
             let seed = geti(kv, "seed", 0) as usize;
+            let inst = Inst::fresh();
             sub_to(Arc::new(scan(
                 move |acc: usize, x: usize| {
+                    inst.touch();
                     count_eval();
                     match k {
                         0 => acc + x,
@@ -766,9 +815,16 @@ fn run_script(line: &str) -> String {
     let moves: Vec<Move> = ms.split_whitespace().map(parse_move).collect();
     W.with(|w| *w.borrow_mut() = World::default());
     let n_subs = moves.iter().filter(|m| matches!(m, Move::In(_, Inp::Sub(_, _), _))).count();
+    let mut ups: HashMap<(usize, usize), usize> = HashMap::new();
+    for m in &moves {
+        if let Move::In(sub, Inp::Up(s, _), _) = m {
+            *ups.entry((*sub, *s)).or_insert(0) += 1;
+        }
+    }
     w(|w| {
         w.script = moves;
         w.subs_left = n_subs;
+        w.ups_left = ups;
         w.recording = true;
         w.subs = geti(&kv, "subs", 1) as usize;
         w.tree_mode = kv.get("op").map(|s| s == "tree").unwrap_or(false);
@@ -802,6 +858,7 @@ fn run_script(line: &str) -> String {
     let mut out = w(|w| std::mem::take(&mut w.out));
     if std::env::var("CB_EVALS").is_ok() {
         out.push(format!("evals:{}", w(|w| w.evals)));
+        out.push(format!("shared_copies:{}", w(|w| w.inst_subs.values().filter(|s| s.len() > 1).count())));
     }
     // drop the world (closures, tasks) outside of any borrow
     let old = W.with(|w| std::mem::take(&mut *w.borrow_mut()));
